@@ -1251,7 +1251,8 @@ std::string Generator::GeneratorImpl::generateMinusUnaryCode(const AnalyserEquat
         || isLogicalOperator(astLeftChild)
         || isPlusOperator(astLeftChild)
         || isMinusOperator(astLeftChild)
-        || isPiecewiseStatement(astLeftChild)) {
+        || isPiecewiseStatement(astLeftChild)
+        || (code.rfind(mProfile->minusString(), 0) == 0)) {
         code = "(" + code + ")";
     }
 
